@@ -218,6 +218,13 @@ var c10Wrappers = []struct {
 		return h
 	}},
 	{"auto.Wrap(no-such-style)", func(t tabular.Table) tabular.Table { return auto.Wrap(t, "c10-no-such-style") }},
+	// wrappers held in the Table interface BY VALUE (a slice of csv.CSVTable, a struct field): the wrapper types are
+	// plain structs embedding the interface, so their values are tables too
+	{"csv.CSVTable by value", func(t tabular.Table) tabular.Table { return *csv.Wrap(t) }},
+	{"html.HTMLTable by value", func(t tabular.Table) tabular.Table { return *html.Wrap(t) }},
+	{"json.JSONTable by value", func(t tabular.Table) tabular.Table { return *json.Wrap(t) }},
+	{"markdown.MarkdownTable by value", func(t tabular.Table) tabular.Table { return *markdown.Wrap(t) }},
+	{"texttable.TextTable by value", func(t tabular.Table) tabular.Table { return *texttable.Wrap(t) }},
 }
 
 // c10Renderer is what every wrapper offers.
